@@ -59,6 +59,8 @@ A_noamplify(ev) == ev.a \notin everConn => Get(bout, ev.a, 0) + ev.n <= Get(bin,
 \* C03: once a key is agreed everything the server emits is AES-GCM under that connection's key - except the signed server hello,
 \* which travels alone in a CRC datagram (sealed: 1 opens under the key, 2 plain CRC datagram, 0 neither)
 A_sealed(ev) == IF ev.ptype = 2 THEN ev.sealed = 2 /\ ev.count = 1 ELSE ev.sealed = 1
+\* C03, client side: the one datagram a client may emit in clear is its hello, carrying that single message; everything else opens under the client's session key
+A_clisealed(ev) == IF ev.ptype = 1 THEN ev.sealed = 2 /\ ev.count = 1 ELSE ev.sealed = 1
 A_notblocked(ev) == ev.blocked = 0          \* (the harness reads the block list configured on the context at that moment: it may be set or replaced at any time)                      \* C11: no reply to a block-listed address
 \* ---- handler events ---------------------------------------------------------------------------------
 L_thread(ev) == thread = 0 \/ ev.tid = thread                                                \* C10: all handler events on one thread
@@ -121,6 +123,7 @@ RawClauses ==
       {c \in {"A_alive", "L_pools", "T_srvdrops", "T_srvcadence", "T_clidrops", "A_echo", "T_tempdrop", "T_clicadence", "T_connfails"} :
          ~CASE c = "A_alive" -> A_alive(ev) [] c = "L_pools" -> L_pools(ev) [] c = "T_srvdrops" -> T_srvdrops(ev) [] c = "T_srvcadence" -> T_srvcadence(ev)
             [] c = "T_clidrops" -> T_clidrops(ev) [] c = "A_echo" -> A_echo(ev) [] c = "T_tempdrop" -> T_tempdrop(ev) [] c = "T_clicadence" -> T_clicadence(ev) [] c = "T_connfails" -> T_connfails(ev)}
+    ELSE IF ev.ev = "csend" THEN (IF A_clisealed(ev) THEN {} ELSE {"A_clisealed"})
     ELSE IF ev.ev = "cset" THEN (IF T_setter(ev) THEN {} ELSE {"T_setter"})
     ELSE IF ev.ev = "ccb" THEN (IF T_msgtimeout(ev) THEN {} ELSE {"T_msgtimeout"})
     ELSE IF ev.ev = "cstat" THEN
